@@ -73,6 +73,16 @@ CHECKS["C09"] = dict(level="model_checking", ref="DESIGN.md §4 C09, §9",
     note=SUP_NOTE + " Time is virtual through a build-tag clock hook inside supCheckRestartIntensity.",
     tech="TLA+ specs Intensity (exhaustive TLC) and SupContract (trace validation of real supervisors under a virtual clock)")
 
+CHECKS["C20"] = dict(level="model_checking", ref="DESIGN.md §4 C20, §9",
+    text="Semantics: crontab specifications enumerated from the grammar (item kinds x boundary days x late/early hours, the OR rule, L, dL, d#n, steps; plus seeded "
+         "random lists) are added as jobs on a real node in UTC, Europe/Berlin, America/New_York (thorough: Australia/Lord_Howe, Asia/Kolkata, whole years) and what the "
+         "real scheduler computes (JobSchedule) is validated per local day by TLC against the TLA+ calendar semantics spec/Cron.tla - 2*10^7 minute decisions in the "
+         "quick tier, across both DST changes, 29 February, month and year ends; the complement grammar must be rejected by AddJob. Scheduler: spec/CronSched.tla "
+         "(spool, next, tick, add/remove/enable/disable) model-checked exhaustively; hundreds of management-call histories are executed on the real cron and the spool "
+         "and Next it reports after every call are validated by TLC against the model (thorough: across real minute boundaries, who fires).",
+    note="Trusted: TLC; Go's time package (zone rules); specifications with <= 3 items per field; the timer itself is exercised only in the thorough tier (real minutes).",
+    tech="TLA+ semantics Cron.tla as TLC-evaluated oracle over the real scheduler's output; TLA+ model CronSched.tla model-checked and bound by trace validation of management-call histories")
+
 NOT_YET = {
 }
 
